@@ -420,6 +420,54 @@ theorem scalar_partial_fit [Inhabited Wt] (K : Kernel X Wt β β) (inf eps : β)
 
 end ScalarFit
 
+/-! ### The inverted vigilance of BayesianART, with ITS generated tables -/
+
+section Bayes
+variable {X Wt β : Type} [Field β] [LinearOrder β] [IsStrictOrderedRing β]
+
+/-- externals of BayesianART: `match_criterion_bin` and `_match_tracking` are the class's own overrides, as generated -/
+def bayesExt (K : Kernel X Wt β β) (inf : β) : Ext X Wt β β β where
+  category_choice := fun W x w _ => (K.choice W x w, K.matchv x w)
+  match_criterion_bin := fun x w rho _ strict =>
+    (Gen.BayesianART.match_bin (fun a b => if strict then decide (b < a) else decide (b ≤ a)) (K.matchv x w) rho, K.matchv x w)
+  update := fun x w _ _ => K.update x w
+  new_weight := fun x _ => K.newW x
+  match_tracking := fun M eps rho mt =>
+    ((Gen.BayesianART.match_tracking inf mt M eps rho).2, (Gen.BayesianART.match_tracking inf mt M eps rho).1)
+  operator := Gen.BaseART.strict
+  noneC := 0
+
+theorem bayes_gcontract (K : Kernel X Wt β β) (inf eps : β) (mt : MT) (is_none : Bool) (vetoF : X → Nat → Bool)
+    (hv : is_none = true → ∀ x c, vetoF x c = false) :
+    GContract K (scalarCfg mt true (· - eps) (· + eps) (-inf)) (bayesExt K inf) id is_none
+      (fun x _ c _ _ => !vetoF x c) vetoF mt eps := by
+  intro W x p0
+  exact {
+    choice := fun _ => rfl
+    passes := fun w p _ => by
+      simp only [bayesExt, id]
+      exact bayes_match_bin mt (K.matchv x w) p
+    track := fun w p _ => by simp only [bayesExt, id, bayes_match_tracking]
+    keep := fun _ p => by simp only [bayesExt, bayes_match_tracking]
+    update := fun _ _ _ => rfl
+    newW := fun _ => rfl
+    tilde := by cases mt <;> rfl
+    veto_none := fun h c => hv h x c
+    veto_some := fun _ _ _ _ _ _ => rfl }
+
+/-- `BaseART.fit` on a BayesianART (statements from BaseART, decisions from BayesianART's overrides, all generated) is
+the model's `fitEpochs` under the inverted scalar configuration -/
+theorem bayes_fit [Inhabited Wt] (K : Kernel X Wt β β) (inf eps : β) (mt : MT) (is_none : Bool) (vetoF : X → Nat → Bool)
+    (hv : is_none = true → ∀ x c, vetoF x c = false) (self : Self Wt β) (Xs : List X) (epochs : Nat) (v : Bool) :
+    letI : Inhabited β := ⟨0⟩
+    Art.Gen.BaseART.fit (bayesExt K inf) self Xs is_none (fun x _ c _ _ => !vetoF x c) epochs mt eps v =
+      (let r := fitEpochs K (scalarCfg mt true (· - eps) (· + eps) (-inf)) self.params (fun _ x c => vetoF x c) epochs Xs
+       (⟨r.W, r.cnt, r.n, self.params, r.labels, true⟩, ())) := by
+  letI : Inhabited β := ⟨0⟩
+  exact fit_spec K _ (bayesExt K inf) id is_none _ vetoF mt eps (bayes_gcontract K inf eps mt is_none vetoF hv) self Xs epochs v
+
+end Bayes
+
 /-! ### SimpleARTMAP: the model's supervised step is the generated A-side step under the generated veto -/
 
 section SMap
